@@ -53,7 +53,7 @@ def build(repo: str, real_workflow: bool = False) -> Program:
         '_placement': 'list[int]', '_initial_mapping': 'list[int]',
         '_final_mapping': 'list[int]', '_model': 'MachineModel',
         '_seed': 'opt[int]', '_error': 'float', 'absstate': 'AbsState',
-        '_target': 'Any', '_data': 'Any',
+        '_target': 'Any', '_data': 'Any', 'connectivity': 'CouplingGraph',
     })
     ctl = 'bqskit/passes/control/'
     p.klass('IfThenElsePass', ctl + 'ifthenelse.py', [], {
@@ -74,6 +74,15 @@ def build(repo: str, real_workflow: bool = False) -> Program:
             [], {'decay_delta': 'float'})
     p.klass('SetModelPass', 'bqskit/passes/mapping/setmodel.py', [],
             {'model': 'MachineModel'})
+    p.klass('CouplingGraph', None, [], {}, opaque=True,
+            returns={'is_fully_connected': 'bool'},
+            pure=['is_fully_connected'])
+    p.klass('GeneralizedSabreRoutingPass',
+            'bqskit/passes/mapping/routing/sabre.py',
+            ['GeneralizedSabreAlgorithm'], {})
+    p.klass('GeneralizedSabreLayoutPass',
+            'bqskit/passes/mapping/layout/sabre.py',
+            ['GeneralizedSabreAlgorithm'], {'total_passes': 'int'})
     p.finish()
 
     # assumed contracts of the opaque data carriers
